@@ -49,6 +49,21 @@ def finishing_together(n, repeats):
             'extra': {'runs': [{'input': inp, 'start_delay_ms': 0} for _ in range(repeats)], 'overlap': False, 'timeout_ms': 60000}}
 
 
+def stopped_while_finishing(delta_ms, repeats):
+    """a step's stop condition fires in the instant in which its plugin finishes on its own: the provider's cancellation
+    path (cancel signal) and its result-collecting goroutine (which retires the signal channel) run side by side"""
+    from vlib import lit, ref, tmap
+    wf = {'steps': {'trig': {'kind': 'plugin', 'pstep': 'work', 'fields': {'input': tmap({'id': lit('trig')})}},
+                    'g': {'kind': 'plugin', 'pstep': 'work', 'fields': {'input': tmap({'id': lit('g')}), 'stop_if': ref('steps.trig.outputs.success.tok'),
+                                                                        'closure_wait_timeout': lit(50)}}},
+          'outputs': {'success': tmap({'r': ref('steps.g.outputs.success.tok')}), 'early': tmap({'r': ref('steps.g.outputs.cancelled_early.tok')}),
+                      'closed': tmap({'c': ref('steps.g.closed.result.cancelled')}), 'crashed': tmap({'c': ref('steps.g.crashed.error.output')})}}
+    script = {'trig': {'exec': {'out': 'success', 'delay_ms': 20}}, 'g': {'exec': {'out': 'success', 'delay_ms': 20 + delta_ms}}}
+    inp = {'x': 'x', 'n': 1, 'flag': True}
+    return {'wf': wf, 'oc': None, 'script': script, 'input': inp, 'inputs': [inp] * repeats, 'schedule': None,
+            'extra': {'runs': [{'input': inp, 'start_delay_ms': 0} for _ in range(repeats)], 'overlap': False, 'timeout_ms': 60000}}
+
+
 def run(ctx):
     rng = random.Random(ctx.seed * 2711 + 17)
     try:
@@ -70,6 +85,8 @@ def run(ctx):
     # which then wakes up next to the handler that produces the output
     for n in ([4, 6] if ctx.quick else [2, 3, 4, 6, 8, 12]):
         items.append(finishing_together(n, 10 if ctx.quick else 25))
+    for delta in ([0, 1, 2] if ctx.quick else [0, 0, 1, 1, 2, 3, 5]):
+        items.append(stopped_while_finishing(delta, 12 if ctx.quick else 30))
     items += check_c06.items_for(ctx)(rng)[:(10 if ctx.quick else 150)]
     scs = []
     for it in items:
